@@ -1111,6 +1111,7 @@ impl<D: Device, P: Protocol, S: Socket, TS: TimeSource> GenericCloud<D, P, S, TS
                 addrs: p.addrs.to_vec(),
                 algorithm: p.crypto.algorithm_name(),
                 init_stage: p.crypto.verif_init_stage(),
+                init_retries: p.crypto.verif_init_retries(),
                 current_key: p.crypto.verif_core().map(|c| c.verif_current_key()),
                 key_fps: p.crypto.verif_core().map(|c| c.verif_key_fps()),
             })
@@ -1118,12 +1119,15 @@ impl<D: Device, P: Protocol, S: Socket, TS: TimeSource> GenericCloud<D, P, S, TS
         peers.sort_by_key(|p| p.addr);
         let mut pending: Vec<_> = self.pending_inits.iter().map(|(a, c)| (*a, c.verif_init_stage())).collect();
         pending.sort();
+        let mut pending_retries: Vec<_> = self.pending_inits.iter().map(|(a, c)| (*a, c.verif_init_retries())).collect();
+        pending_retries.sort();
         crate::verif::NodeSnapshot {
             node_id: self.node_id,
             own_addresses: self.own_addresses.to_vec(),
             claims: self.claims.to_vec(),
             peers,
             pending,
+            pending_retries,
             reconnect: self
                 .reconnect_peers
                 .iter()
